@@ -1267,6 +1267,8 @@ class QARBF(StationaryKernelMixin, Kernel):
         k = np.sum(sk, axis=-1)
         print(self.scale)
         if eval_gradient:
+            if self.hyperparameter_scale.fixed:
+                sk = np.empty((X.shape[0], Y.shape[0], 0))
             return k, sk
         return k
 
